@@ -101,7 +101,8 @@ func (c *ctxRun) seqRound(x cfg) roundCase {
 		j := r.Intn(i + 1)
 		perm[i], perm[j] = perm[j], perm[i]
 	}
-	return roundCase{Blob: c.genBlob(ln), K: x.k, M: x.m, Erased: append([]int{}, perm[:e]...), Pattern: "sequence"}
+	erased := append([]int{}, perm[:e]...)
+	return roundCase{Blob: c.genBlob(ln), K: x.k, M: x.m, Erased: erased, Empty: c.lossEncoding(erased), Pattern: "sequence"}
 }
 
 // JoinShards on the freshly encoded shards of p (no reconstruction involved)
@@ -113,7 +114,7 @@ func (c *ctxRun) seqJoin(p *pendingRound) {
 	before := cloneShards(in)
 	out := len(p.rc.Blob)
 	rec := realReconstruct(in, p.rc.K, out, true)
-	term := fmt.Sprintf("CRec {| rj_in := %s; rj_k := %s; rj_out := %s; rj_join_only := true; rj_res := %s; rj_post := %s |}",
+	term := fmt.Sprintf("CRec {| rj_in := %s; rj_k := %s; rj_out := %s; rj_join_only := true; rj_res := %s; rj_post := %s; rj_ghost := None |}",
 		coqShards(before), emit.ZI(int64(p.rc.K)), emit.ZI(int64(out)), rec.coq(), coqShards(in))
 	c.cf.Add(term)
 	info := map[string]any{"kind": "sequence:join", "k": p.rc.K, "m": p.rc.M, "blob_len": out, "result": rec.class()}
